@@ -149,14 +149,18 @@ theorem applyKey_single (op : String) (sv : Val) (key : String) (d : Val)
   have hany : ([op].any fun k => k != "$ne" && k != "$nin")
       = !(decide (op = "$ne") || decide (op = "$nin")) := by
     by_cases a : op = "$ne" <;> by_cases b : op = "$nin" <;> simp [a, b]
+  have hio : isOpsFilter (.doc [(op, sv)]) = true := by simp [isOpsFilter, hs]
+  have hopt : (isOpsFilter (Val.doc [(op, sv)]) &&
+      ((dkeys [(op, sv)]).contains "$options" && (dkeys [(op, sv)]).contains "$regex")) = false := by
+    simp [dkeys, Ne.symm h4]
   rw [applyKey]
+  simp only [hopt, Bool.false_eq_true, ↓reduceIte]
+  simp only [hio, ↓reduceIte, dkeys, List.map_cons, List.map_nil, hck, bind, Except.bind]
   cases candsKey key d with
   | error e => rfl
   | ok cs =>
-    simp only [bind, Except.bind, singleOp, dkeys, List.map_cons, List.map_nil, hck,
-      opsAll_single op sv key d _ h1 h2 h3, hpe, hany]
-    simp [isOpsFilter, hs, Ne.symm h1, Ne.symm h4, pure, Except.pure,
-      eq_comm (a := "$ne"), eq_comm (a := "$nin")]
+    simp only [Except.bind, singleOp, opsAll_single op sv key d _ h1 h2 h3, hpe, hany]
+    simp [Ne.symm h1, pure, Except.pure, eq_comm (a := "$ne"), eq_comm (a := "$nin")]
     rfl
 
 
@@ -310,5 +314,41 @@ theorem null_eq_missing (key : String) (d : Val) (h : candsKey key d = .ok [none
     applyKey .null key d = .ok true := by
   rw [applyKey.eq_2 _ _ _ (by intro fs e; cases e)]
   simp [h, bind, Except.bind, candLoop, plainMatch, pure, Except.pure]
+
+/-! ### the operators of a condition are checked before the candidates are looked at -/
+
+/-- a name that is neither in the operator table nor `$not` -/
+def unknownOp (k : String) : Bool := !(operatorMapKeys.contains k) && k != "$not"
+
+theorem checkUnknownOps_err (keys : List String) (h : keys.any unknownOp = true) :
+    checkUnknownOps keys = .error .opFail ∨ checkUnknownOps keys = .error .notImpl := by
+  have hne : (keys.filter unknownOp).isEmpty = false := by
+    cases hf : keys.filter unknownOp with
+    | nil =>
+      rw [List.filter_eq_nil_iff] at hf
+      obtain ⟨k, hk, hp⟩ := List.any_eq_true.mp h
+      exact absurd hp (hf k hk)
+    | cons _ _ => rfl
+  have hne' : (keys.filter (fun k => !(operatorMapKeys.contains k) && k != "$not")).isEmpty = false := hne
+  simp only [checkUnknownOps, hne', Bool.false_eq_true, ↓reduceIte]
+  split <;> simp
+
+/-- an operator condition whose check fails is rejected whatever the key reaches -/
+theorem applyKey_check_err (fs : Fields) (key : String) (d : Val) (e : Err)
+    (hops : isOpsFilter (.doc fs) = true)
+    (hopt : ((dkeys fs).contains "$options" && (dkeys fs).contains "$regex") = false)
+    (he : checkUnknownOps (dkeys fs) = .error e) :
+    applyKey (.doc fs) key d = .error e := by
+  rw [applyKey.eq_1]
+  simp only [hops, hopt, Bool.and_false, Bool.false_eq_true, ↓reduceIte, he, bind, Except.bind]
+
+theorem applyKey_unknown_op (fs : Fields) (key : String) (d : Val)
+    (hops : isOpsFilter (.doc fs) = true)
+    (hopt : ((dkeys fs).contains "$options" && (dkeys fs).contains "$regex") = false)
+    (hunk : (dkeys fs).any unknownOp = true) :
+    applyKey (.doc fs) key d = .error .opFail ∨ applyKey (.doc fs) key d = .error .notImpl := by
+  rcases checkUnknownOps_err _ hunk with h | h
+  · exact Or.inl (applyKey_check_err fs key d _ hops hopt h)
+  · exact Or.inr (applyKey_check_err fs key d _ hops hopt h)
 
 end MongoModel.Proofs.C01Lemmas
